@@ -255,6 +255,9 @@ def rule_single_critical_section(ctx, f, rid):
                 e = elem_of(peel(mets[0].args[0]))
                 ok = bool(e) and guard_of(e[0]) == w.result_term() and e[1] and e[1][-1] in ("values",) and not [a for a in e[1] if a not in ("values", "into_iter")]
                 ok = ok and peel(pushes[0].args[1]) == mets[0].result_term()
+                # every child: no path through the loop body skips the push
+                from . import hash_common as hc
+                ok = ok and hc.every_element(b, pushes[0], via=mets[0]) is True
                 # iteration happens before the guard is released
                 ok = ok and all(pushes[0].bb not in b.reach(r) for r in rel)
             ctx.ob(rid, "collect|one-sample-per-child", ok, "collect must push child.metric() for every value of the map, under the read guard, without filtering", site=w.span)
